@@ -5,6 +5,26 @@ import json, os, subprocess
 HERE = os.path.dirname(os.path.dirname(os.path.abspath(__file__)))
 
 CHECKS = {
+ "C02": dict(
+   category="exploration", design="DESIGN.md §5 C02",
+   technique="property-based testing: generated programs and corpus stories x generated histories x every save point; lockstep differential original vs fresh-story+load_state; save-load-save canonical round trip",
+   text="At every position between two host calls of a generated history the story is saved, loaded into a freshly constructed story, and both are driven through the remaining history and a tail in lockstep (view right after the load, every later observation, final view, final canonical save; re-save equals the save). Generated-input search over programs with threads, tunnels, functions, lists, RANDOM, several flows, fallback choices; exploration only.",
+   note="Trusted: the harness's transcript/view extraction through the public API and its canonical-JSON comparison (choice `index` caches and diagnostic texts excluded, observer notifications compared by C11 instead). Fuel-bounded."),
+ "C09": dict(
+   category="exploration", design="DESIGN.md §5 C09",
+   technique="property-based testing: generated programs x valid generated histories with invalid host calls injected at generated positions; lockstep differential against the same history without the injections, plus view/save equality around each rejected call",
+   text="Each of 18 kinds of invalid host call is injected at generated positions (mid-paragraph, choice point, end, after an error, in named flows). Each must return Err without panicking, leave the polled view and the canonical save unchanged, and the injected history must behave exactly like the clean one to its end. Exploration only.",
+   note="Trusted: harness view/save polling (itself part of both runs). Removing an absent flow/observer and jumping to knot.nostitch (approximated by the engine, as in the reference) may succeed and are then not judged."),
+ "C16": dict(
+   category="exploration", design="DESIGN.md §5 C16",
+   technique="property-based testing: generated programs with pure functions x generated histories with evaluate_function injected (twice) at generated boundaries; lockstep differential against the uninjected history; repeatability of the result",
+   text="evaluate_function is injected at generated boundaries of generated histories; the polled view must be identical before and after, the second call must return what the first returned, and the whole history must behave as without the calls (visit counts of functions excluded). Exploration only.",
+   note="Purity of the evaluated functions is by generator construction. The returned value is checked for repeatability, its correctness belongs to C01."),
+ "C17": dict(
+   category="exploration", design="DESIGN.md §5 C17",
+   technique="property-based testing: generated programs and corpus stories x generated histories ending in reset_state; lockstep differential against a fresh story over several continuations; metamorphic relation for choose_path_string(reset=true)",
+   text="After an arbitrary generated history (errors, loads, flows, path jumps, failed calls) reset_state must make the story equal to a freshly constructed one with the same seed: immediate view and canonical save, every observation of several continuations, final view and save; registrations keep working. A second relation checks that a path jump with call-stack reset behaves independently of the abandoned stack. Exploration only.",
+   note="The seed hook re-applies the story seed after reset (the runtime draws a new random one). Warnings of global declarations are compared as a set across {reset call + replay} and {fresh replay}."),
  "C04": dict(
    category="exploration", design="DESIGN.md §5 C04",
    technique="property-based testing: generated fault-prone programs and corpus mutants x random host-call histories, no-panic validity predicate, wrapping-i32 reference model, reset-vs-fresh differential; debug and release builds",
